@@ -301,6 +301,10 @@ pub fn oracle_tree<const N: usize>(c: &TreeCase) -> Viol {
                     }
                 }
             }
+            // large cases: the O(n) whole-tree predicates run on a stride and at the end
+            if c.final_only && i + 1 != c.ops.len() && i % (1 + c.ops.len() / 12) != 0 {
+                continue;
+            }
             let ev = log(&t, usize::MAX);
             // C17 nesting + structure
             let st = match parse_tree(&ev) {
